@@ -446,7 +446,7 @@ def check_readdir(chk, tu):
     # header (49) and two records plus a remainder (55); the modelled entries have one-character names (25-byte records)
     used = unk('used')
     full = 0
-    for blen in (10, 24, 30, 49, 55):
+    for blen in ((10, 24, 30, 49, 55) if chk.tier == 'quick' else range(0, 80)):
         paths = readdir_paths(tu, OPEN, unk('cookie', 'unsigned long long'), buflen=blen)
         for p in paths:
             if p.ret != 0:
